@@ -230,7 +230,7 @@ pub fn run(ctx: &Ctx) -> i32 {
             assumptions: vec!["ron 0.7.1 and serde_json are trusted as self-describing formats; a RON-only failure is labelled as such".into()],
             exhaustive: false,
             extra: Default::default(),
-            min_nontrivial: 500,
+            min_nontrivial: 50,
         },
     )
 }
